@@ -13,9 +13,9 @@ pub fn private_func_leading_underscore(source_unit: SourceUnit) -> HashSet<Loc> 
         ast::extract_target_from_node(Target::FunctionDefinition, source_unit.into());
 
     for node in target_nodes {
-        let contract_part = node.contract_part().unwrap();
-
-        if let pt::ContractPart::FunctionDefinition(box_fn_definition) = contract_part {
+        //Free functions are not contract parts and carry no visibility
+        if let Some(pt::ContractPart::FunctionDefinition(box_fn_definition)) = node.contract_part()
+        {
             if FunctionTy::Function != box_fn_definition.ty {
                 continue;
             }
